@@ -2,6 +2,7 @@
 TTL / class inheritance) and the forcing options of dns.zonefile.read_rrsets.
 Growth of the specification beyond C01-C20 (DESIGN.md section 7); not in MANIFEST.json."""
 import concurrent.futures as cf
+import hashlib
 import itertools
 import json
 import os
@@ -150,7 +151,10 @@ def run(ctx):
         case = ctx.replay_case["case"]
         jobs = [case["job"]]
     else:
-        ctx.model("MC_ZoneReader", "MC_ZoneReader_quick.cfg" if quick else "MC_ZoneReader_thorough.cfg", workers=1 if quick else 4)
+        # single-worker JVMs only: a multi-worker run needs 5 of the machine's 20 TLC slots at once and can starve
+        ctx.model("MC_ZoneReader", "MC_ZoneReader_quick.cfg" if quick else "MC_ZoneReader_thorough.cfg", workers=1)
+        if not quick:
+            ctx.model("MC_ZoneReader", "MC_ZoneReader_allpol.cfg", workers=1)
         ctx.model("MC_ZoneReader", "MC_ZoneReader_gen.cfg", workers=1)
         beh = []
         only = os.environ.get("X05_FAMS")   # development convenience (mutation harness): run some families only
@@ -170,41 +174,58 @@ def run(ctx):
             for j, (cfg, drv) in enumerate(jobs_for(ctx, fam, k, hist, quick)):
                 jobs.append({"tid": "%s.%d.%d" % (fam, k, j), "lines": hist, "cfg": cfg, "drv": drv})
         ctx.extra["behaviours"] = len(beh)
+    stats = {"loads": 0, "loads_refused": 0, "records_projected": 0, "located": 0, "line_off": 0, "line_examples": [],
+             "free": 0, "not_pola": 0, "pola_examples": []}
+    chunk = 40000   # bounded memory: drive, validate and drop one batch of traces at a time
+    for lo in range(0, len(jobs), chunk):
+        process(ctx, jobs[lo:lo + chunk], quick, stats)
+    ctx.extra.update({k: stats[k] for k in ("loads", "loads_refused", "records_projected")})
+    if not ctx.replay_case:
+        ctx.drift = stats["line_off"]
+        ctx.extra["drift_error_line_number"] = {"traces_with_located_refusal": stats["located"], "line_number_differs": stats["line_off"],
+                                                "example": stats["line_examples"]}
+        if stats["free"]:
+            ctx.extra["reading_PolA"] = {"traces_where_a_policy_field_matters": stats["free"], "not_explained_by_PolA": stats["not_pola"],
+                                         "example": stats["pola_examples"]}
+    ctx.evaluations = stats["loads"]
+
+
+def process(ctx, jobs, quick, stats):
     jobmap = {j["tid"]: j for j in jobs}
     traces = ctx.pmap(x05_reader.run_job, jobs) if len(jobs) > 1 else [x05_reader.replay(jobs[0])]
     for tr in traces[:2]:
         ctx.sample({"tid": tr["tid"], "cfg": tr["cfg"], "drv": tr["drv"], "ev": [{k: e[k] for k in ("k", "res") if k in e} for e in tr["ev"][:3]]})
-    loads = errs = 0
     for tr in traces:
-        loads += len(tr["ev"])
-        errs += sum(1 for e in tr["ev"] if e.get("res", {}).get("st") == "err")
+        stats["loads"] += len(tr["ev"])
+        stats["loads_refused"] += sum(1 for e in tr["ev"] if e.get("res", {}).get("st") == "err")
+        stats["records_projected"] += sum(len(e["res"]["recs"]) for e in tr["ev"] if "res" in e)
         if len(tr["ev"]) >= 2:
-            ctx.note_distinct(json.dumps([tr["cfg"], tr["drv"], [{k: v for k, v in e.items() if k != "res"} for e in tr["ev"]]], sort_keys=True))
-    ctx.extra.update({"loads": loads, "loads_refused": errs, "records_projected": sum(len(e["res"]["recs"]) for tr in traces for e in tr["ev"] if "res" in e)})
+            ctx.note_distinct(hashlib.sha1(json.dumps([tr["cfg"], tr["drv"], [{k: v for k, v in e.items() if k != "res"} for e in tr["ev"]]],
+                                                      sort_keys=True).encode()).hexdigest()[:16])
     rejects = ctx.validate("Trace_ZoneReader", "Trace_ZoneReader.cfg", traces)
     for tr, line, clause in rejects:
         e = tr["ev"][line - 1] if line else {}
         ctx.violation(clause, classify(tr, line, clause), "trace %s (%s) line %s: %s" % (tr["tid"], json.dumps(tr["drv"]), line, json.dumps(e)[:300]),
                       {"job": jobmap[tr["tid"]], "line": line, "trace": tr})
+    if ctx.replay_case:
+        return
     # drift (never a verdict): the line number in "file:line:" messages, judged on the accepted traces that contain a refusal
     bad = {id(r[0]) for r in rejects}
     witherr = [tr for tr in traces if id(tr) not in bad and any(e.get("res", {}).get("syn") for e in tr["ev"])]
-    if witherr and not ctx.replay_case:
-        before = ctx.traces
+    before = ctx.traces
+    if witherr:
         off = ctx.validate("Trace_ZoneReader", "Trace_ZoneReader_lines.cfg", witherr)
-        ctx.traces = before
-        ctx.drift = len(off)
-        ctx.extra["drift_error_line_number"] = {"traces_with_located_refusal": len(witherr), "line_number_differs": len(off),
-                                                "example": [dict(tr["ev"][ln - 1]["res"], tid=tr["tid"]) for tr, ln, c in off[:3] if ln]}
+        stats["located"] += len(witherr)
+        stats["line_off"] += len(off)
+        stats["line_examples"] = (stats["line_examples"] + [dict(tr["ev"][ln - 1]["res"], tid=tr["tid"]) for tr, ln, c in off[:3] if ln])[:3]
     # measured (never a verdict): is the pinned tree explained by ONE reading, PolA (restore owner and TTL state after an
     # include, inherit the owner into it, SOA MINIMUM as default, read_rrsets inherits, $GENERATE sets the owner,
     # from_text's include default off)?  Judged on the accepted traces in which a policy field can matter.
-    free = [tr for tr in traces if id(tr) not in bad and (tr["cfg"]["api"] == "rrsets" or any(
-        e.get("k") in ("inc", "gen") or e.get("y") == "SOA" for e in tr["ev"]))]
     if not quick or os.environ.get("X05_PINNED"):
-        before = ctx.traces
+        free = [tr for tr in traces if id(tr) not in bad and (tr["cfg"]["api"] == "rrsets" or any(
+            e.get("k") in ("inc", "gen") or e.get("y") == "SOA" for e in tr["ev"]))]
         off = ctx.validate("Trace_ZoneReader", "Trace_ZoneReader_pinned.cfg", free)
-        ctx.traces = before
-        ctx.extra["reading_PolA"] = {"traces_where_a_policy_field_matters": len(free), "not_explained_by_PolA": len(off),
-                                     "example": [tr["tid"] for tr, ln, c in off[:3]]}
-    ctx.evaluations = loads
+        stats["free"] += len(free)
+        stats["not_pola"] += len(off)
+        stats["pola_examples"] = (stats["pola_examples"] + [tr["tid"] for tr, ln, c in off[:3]])[:3]
+    ctx.traces = before
